@@ -131,6 +131,14 @@ CHECKS["C08"] = ("differential property-based testing (Hypothesis): generated si
             "does not run after an invalid parameter, the converted return value, and for generators the yielded / sent / returned values of a next/send script.",
             "Trusted: inspect.Signature.bind as the precondition; utype.type_transform on a single annotation as the meaning of 'converted'; coroutines driven with send(None).", "3/C08")
 
+CHECKS["C05"] = ("model-based property-based testing (Hypothesis): generated declarations over the Field x Options product and input mappings over names / aliases / case variants / extra keys, against an independent reference model of the documented field contract",
+            "hypothesis",
+            "Exploration: generated data classes (Schema, DataClass, @dataclass) with required (incl. mode strings), default / default_factory / defer_default, alias / alias generator / alias_from, "
+            "case-insensitivity, no_input / no_output (incl. mode strings), mode / readonly / writeonly, dependencies, on_error, and class options mode, addition (None/True/False/type), "
+            "ignore_required, no_default, defer_default, ignore_alias_conflicts, min/max_params, invalid_values; the verdict, the key view, every attribute and membership are compared "
+            "with the model; on failure the raised error must be one the model finds.",
+            "Trusted: the reference model vf/checks/c05.py:model (written from docs/en/references/field.md, options.md, guide/cls.md); single-value conversion via utype.type_transform.", "3/C05")
+
 NOT_YET = "check not built yet in this round (planned, see DESIGN.md section 3)"
 
 
